@@ -603,6 +603,7 @@ func runPStress(d desc) hlib.Case {
 	}
 	var ws, rs []string
 	var wg sync.WaitGroup
+	var closeOnce sync.Once
 	wg.Add(2)
 	total := 0
 	go func() {
@@ -617,13 +618,15 @@ func runPStress(d desc) hlib.Case {
 		}
 		if d.WriterCloses {
 			w.Close()
+		} else {
+			closeOnce.Do(func() { rdc.Close() }) // nobody else would: the reader is parked
 		}
 	}()
 	go func() {
 		defer wg.Done()
 		for i := 0; i < len(rsizes); i++ {
 			if !d.WriterCloses && i == d.CloseAfter {
-				rdc.Close()
+				closeOnce.Do(func() { rdc.Close() })
 			}
 			buf := make([]byte, rsizes[i])
 			n, err := rdc.Read(buf)
